@@ -304,10 +304,10 @@ func (r *runner) unpark(w int) { close(r.rel[w]) }
 func waitFor(what string, cond func() bool) {
 	deadline := time.Now().Add(stuck)
 	for i := 0; !cond(); i++ {
-		if i%64 == 63 {
-			time.Sleep(20 * time.Microsecond)
-		} else {
+		if i < 16 {
 			runtime.Gosched()
+		} else {
+			time.Sleep(20 * time.Microsecond)
 		}
 		if time.Now().After(deadline) {
 			panic("stuck waiting for " + what)
